@@ -6,6 +6,13 @@ import os
 VERIF = os.path.dirname(os.path.dirname(os.path.abspath(__file__)))
 
 CHECKS = {
+    "C09": dict(
+        category="fault_enumeration",
+        technique="TLA+ spec Resources (ownership ledger of one pipeline run: redirect handles, pipe ends, capture pipes, helper threads, children, swapped handlers; build / wire / start / drain / close with a fault choice at every step) checked by TLC for LeavesNothing on every path; every pipeline shape x injected fault executed repeatedly in a real session between two snapshots of the process state; outcomes validated against ResourcesTrace by TLC",
+        text="TLC enumerates every path out of a pipeline run of up to three stages - normal end, redirect target unopenable, input missing, command not found at stage i after earlier stages were started, alias raising at stage i, consumer leaving early - and checks that nothing stays owned and the handlers are the original ones at quiescence (and refutes it with the listed deviations enabled). Each shape (process / callable-alias stages, six capture forms, output redirects) is then run for real 3 (thorough: also 12) times after a warm-up with the fault injected by construction of the command, and /proc/self/fd (with link targets), running children, cwd, os.environ, the session environment and the effect of a self-sent SIGINT are compared before and after, after garbage collection and up to 3 s of settling; only growth counts. Fault enumeration is the right level: the failure modes of each stage are finite and enumerated; what the real system calls do is observed, not modelled.",
+        design_ref="3/C09, A.5",
+        note="Faults by construction of the command, not by failing system calls; non-interactive session (terminal ownership not observable). Helper threads still alive, sys.std* identity, runs exceeding the time limit, stale handlers and zombies depend on thread timing the harness does not control and are reported as ADVISORY only. One descriptor leak is a known finding.",
+    ),
     "C01": dict(
         category="model_checking",
         technique="TLA+ spec PyGrammar over production tables generated from harness/pygrammar.py (401 named productions of the Python 3.12 grammar, slot kinds, well-formed derivations, table sanity as ASSUMEs) checked by TLC; every derivation - each production alone in 14 layouts and 3 modes, every (parent, slot, child) nesting, depth-3 nestings from fixed random streams - rendered to source, parsed by CPython (oracle for membership and tree) and by xonsh's parser on an LALR table regenerated from the working tree; outcomes validated against PyGrammarTrace by TLC, failures explained only by listed productions / nestings (generated module PyGrammarKnown)",
